@@ -384,7 +384,25 @@ def c10(run):
                                      "tracked buffers are observed over their full capacity"])
 
 
-PROPS = {"C01": c01, "C10": c10, "C09": c09, "C16": c16, "C17": c17, "C18": c18, "C19": c19, "C20": c20, "C11": c11, "C14": c14, "C15": c15, "C12": c12, "C13": c13, "C05": c05, "C02": c02, "C03": c03, "C04": c04, "C06": c06, "C07": c07, "C08": c08}
+def ext(run):
+    """Extended coverage: behaviour of brocaar/lorawan outside the 20 listed properties (clause prefix "X.").
+    Not registered in MANIFEST.json; failures print EXT-FAIL and never enter a property verdict."""
+    run.design_check("BackendClientModel", cfg="BackendClientModel.cfg", workers=4)
+    run.design_check("BackendClientModel", cfg="BackendClientModel_sync.cfg", workers=2)
+    run.design_check("BackendClientModel", cfg="BackendClientModel_postfirst.cfg", workers=2, expect_violation="NoLostAnswer")
+    run.design_check("BackendClientModel", cfg="BackendClientModel_sametx.cfg", workers=2, expect_violation="ExactAnswer")
+    t = run.record("client", "sync", n=T(run, 400, 20000))
+    run.validate("client", t, "Trace_client", prefix="X.", label="(V) synchronous backend client against a scripted peer (loopback HTTP)", chunk=2000)
+    t = run.record("band", "misc")
+    run.validate("band", t, "Trace_band", prefix="X.", label="(V) max EIRP, TxParamSetup support, downlink TX power per band")
+    t = run.record("misc", "sens", n=T(run, 2000, 200000))
+    run.validate("misc", t, "Trace_misc", prefix="X.", label="(V) receiver sensitivity / link budget relations", chunk=20000)
+    run.require_kinds("client/client", "band/bandmisc", "misc/sens")
+    run.rc = run.finish(assumptions=["extended coverage, outside the listed properties", "the asynchronous (Redis) client mode is covered by the design model only: no Redis server can run here",
+                                     "max EIRP values and TxParamSetup support from RP002-1.0.x as transcribed in spec/trace/Trace_band.tla"])
+
+
+PROPS = {"EXT": ext, "C01": c01, "C10": c10, "C09": c09, "C16": c16, "C17": c17, "C18": c18, "C19": c19, "C20": c20, "C11": c11, "C14": c14, "C15": c15, "C12": c12, "C13": c13, "C05": c05, "C02": c02, "C03": c03, "C04": c04, "C06": c06, "C07": c07, "C08": c08}
 
 
 def replay(run, path):
